@@ -81,8 +81,8 @@ func NewWorld() *World {
 // NewWorldOn builds clients and caches on top of an existing store (used to
 // model a process restart: same cluster, fresh process state).
 // NewWorldDiscovery is NewWorld with the order of the discovery document chosen.
-func NewWorldDiscovery(subresourcesFirst bool) *World {
-	sim := vs.NewServer(Universe())
+func NewWorldDiscovery(subresourcesFirst bool, extra ...*vs.ResourceDef) *World {
+	sim := vs.NewServer(append(Universe(), extra...))
 	sim.SubresourcesFirst = subresourcesFirst
 	return NewWorldOn(sim)
 }
@@ -112,16 +112,27 @@ func NewWorldOn(sim *vs.Server) *World {
 			continue
 		}
 		ix := cache.NewIndexer(cache.DeletionHandlingMetaNamespaceKeyFunc, cache.Indexers{cache.NamespaceIndex: cache.MetaNamespaceIndexFunc})
-		w.Indexers[d.Resource] = ix
+		w.Indexers[d.Name()] = ix
 		n := new(int)
-		w.Closed[d.Resource] = n
-		w.Informers[d.Resource] = dynamicinformer.NewVerifResourceInformer(ix, d.GVR(), n)
+		w.Closed[d.Name()] = n
+		w.Informers[d.Name()] = dynamicinformer.NewVerifResourceInformer(ix, d.GVR(), n)
 	}
 	w.RevIndexer = cache.NewIndexer(cache.MetaNamespaceKeyFunc, cache.Indexers{cache.NamespaceIndex: cache.MetaNamespaceIndexFunc})
 	w.RevLister = mclisters.NewControllerRevisionLister(w.RevIndexer)
 	w.Queue = &RecQueue{}
 	w.Hooks = &HookClient{routes: map[string]HookHandler{}}
 	return w
+}
+
+// InformerFor returns the harness-owned informer of the resource a rule names (apiVersion + plural): two
+// definitions may share a plural across API groups, so the plural alone does not identify it.
+func (w *World) InformerFor(apiVersion, resource string) *dynamicinformer.ResourceInformer {
+	for _, d := range w.Sim.Defs() {
+		if d.Resource == resource && d.APIVersion() == apiVersion {
+			return w.Informers[d.Name()]
+		}
+	}
+	return nil
 }
 
 // SyncCache makes the cache of one resource equal to the store (a reflector
@@ -156,7 +167,7 @@ func (w *World) SyncCache(resource string) {
 // SyncAll catches every cache up.
 func (w *World) SyncAll() {
 	for _, d := range w.Sim.Defs() {
-		w.SyncCache(d.Resource)
+		w.SyncCache(d.Name())
 	}
 }
 
@@ -164,7 +175,7 @@ func (w *World) SyncAll() {
 func (w *World) ResourceNames() []string {
 	var out []string
 	for _, d := range w.Sim.Defs() {
-		out = append(out, d.Resource)
+		out = append(out, d.Name())
 	}
 	return out
 }
